@@ -320,7 +320,8 @@ class St:
 
     def _align(self, addr, size):
         sh = size.bit_length() - 1
-        return addr if sh == 0 else cat(bits(addr, 31, sh), BV(0, sh))
+        # written as size * (addr DIV size) so that it normalises like the code's align()
+        return addr if sh == 0 else BV(size, 32) * zx(bits(addr, 31, sh), 32)
 
     def _legacy_align(self):
         """ArchVersion() < 7 && SCTLR.A == 0 && SCTLR.U == 0"""
@@ -536,6 +537,17 @@ class St:
         w = b1(is_write) if z3.is_bool(is_write) else bv(int(bool(is_write)), 1)
         fs = bv(fs5, 5)
         s14 = cat(BV(0, 2), w, bits(fs, 4, 4), BV(0, 6), bits(fs, 3, 0))
+        self.sys['dfsr'] = set_bits(self.sys['dfsr'], 13, 0, s14)
+
+    def vmsa_fault_status(self, addr, is_write, fs5, domain=None):
+        """short-descriptor format DFSR (B3.13 / B4.1.52), FCSE-translated address in DFAR"""
+        pid = bits(self.sys['fcseidr'], 31, 25)
+        mva = z3.If(bits(addr, 31, 25) == 0, cat(pid, bits(addr, 24, 0)), addr)
+        self.sys['dfar'] = mva
+        w = b1(is_write) if z3.is_bool(is_write) else bv(int(bool(is_write)), 1)
+        fs = bv(fs5, 5)
+        dom = BV(0, 4) if domain is None else domain
+        s14 = cat(BV(0, 2), w, bits(fs, 4, 4), BV(0, 2), dom, bits(fs, 3, 0))
         self.sys['dfsr'] = set_bits(self.sys['dfsr'], 13, 0, s14)
 
     # ---- CPSRWriteByInstr (B1.3.3) ---------------------------------------
